@@ -103,8 +103,15 @@ vars == <<cfg>>
 
 SameSampler(i, j) == Options[i].sampler = Options[j].sampler
 
+\* option values that are only accepted together with another non-default value: without the
+\* companion the single-option configuration is rejected up front and the value would never run
+Idx(s, n) == CHOOSE k \in 1..NOpt : Options[k].sampler = s /\ Options[k].name = n
+Companions ==
+    {{<<Idx("std", "latent_prior"), a>>, <<Idx("std", "constant_volume_mode"), 2>>} : a \in 2..6}
+
 Init ==
     \/ cfg = {}
+    \/ cfg \in Companions
     \/ \E i \in 1..NOpt : \E a \in 2..Len(Options[i].values) : cfg = {<<i, a>>}
     \/ /\ Pairs
        /\ \E i, j \in 1..NOpt : i < j /\ SameSampler(i, j) /\
